@@ -1,6 +1,7 @@
 import Resolvo.Snapshot
 import Resolvo.Props.C19
 import Resolvo.Enc.ReferenceProofs
+import Resolvo.SubUniverse
 /-!
 # C16 — a dependency snapshot is a faithful, serialisable copy of a provider
 
@@ -77,5 +78,24 @@ theorem closure_mono (U : Universe) (fuel : Nat) (queue seen : List Elem) (e : E
     | cons q qs =>
       simp only [closure]
       exact ih _ _ (List.mem_append_left _ h)
+
+/-! ## Same verdict, and solutions valid against the live data
+
+`SubAgree` (SubUniverse.lean) is decided by `subAgreeB`; the check evaluates it for every generated snapshot on the
+captured solvables / version sets (tag `closure-certificate`), with the snapshot's contents compared field by field with
+the real `DependencySnapshot` before and after the serde round-trip. -/
+
+/-- **Same verdict through a snapshot**: if the captured part of the universe passes the closure certificate, the problem
+    is solvable for the universe the snapshot denotes (with any added version sets) iff it is solvable for the live one. -/
+theorem snapshot_solvable_agree (U : Universe) (P : Problem) (sn : Snapshot) (added : List (Nat × VsInfo)) (S V : List Nat)
+    (h : subAgreeB U (toUniverse sn added) S V P = true) : Solvable (toUniverse sn added) P ↔ Solvable U P :=
+  solvable_agree U _ S V P (subAgreeB_sound U _ S V P h)
+
+/-- **Solutions found through a snapshot are valid against the live provider's data** (and vice versa), for selections
+    of captured solvables. -/
+theorem snapshot_valid_agree (U : Universe) (P : Problem) (sn : Snapshot) (added : List (Nat × VsInfo)) (S V : List Nat)
+    (h : subAgreeB U (toUniverse sn added) S V P = true) (sel : List Nat) (hsub : ∀ s ∈ sel, s ∈ S) :
+    Valid (toUniverse sn added) P sel [] ↔ Valid U P sel [] :=
+  valid_agree U _ S V P (subAgreeB_sound U _ S V P h) sel hsub
 
 end Resolvo.C16
